@@ -235,6 +235,38 @@ let run_set id toks =
   let obs = List.map show (List.combine res (List.map snd ops)) in
   Printf.printf "%s %s\n" id (String.concat "|" (obs @ (if cut then ["?"] else [])))
 
+let parse_lop (t : string) : lop option =
+  let n x = ni (int_of_string x) in
+  match String.split_on_char ':' t with
+  | ["pb"; v] -> Some (LPushB (n v))
+  | ["pf"; v] -> Some (LPushF (n v))
+  | ["popb"] -> Some LPopB
+  | ["popf"] -> Some LPopF
+  | ["ins"; p; v] -> Some (LIns (n p, n v))
+  | ["er"; p] -> Some (LErase (n p))
+  | ["front"] -> Some LFront
+  | ["back"] -> Some LBack
+  | ["riter"] -> Some LRIter
+  | ["clr"] -> Some LClear
+  | ["swap"] -> Some LSwap
+  | ["sel"; r] -> Some (LSel (r <> "0"))
+  | ["spl1"; p; q] -> Some (LSplice1 (n p, n q))
+  | ["spln"; p; a; b] -> Some (LSpliceN (n p, n a, n b))
+  | ["splself"; p; q] -> Some (LSpliceSelf (n p, n q))
+  | _ -> None
+
+let run_list id toks =
+  let rec split acc = function
+    | [] -> (List.rev acc, false)
+    | t :: r -> (match parse_lop t with Some o -> split (o :: acc) r | None -> (List.rev acc, true)) in
+  let (ops, cut) = split [] toks in
+  let show = function
+    | None -> "!"
+    | Some ((((r, n), vs), ids), fr) ->
+      Printf.sprintf "%s/%d%s/%s/%s/%d" (show_ret r) (int_of_nat n) (if n = O then "e" else "") (show_list vs) (show_list ids) (int_of_nat fr) in
+  let obs = List.map show (grun ginit ops) in
+  Printf.printf "%s %s\n" id (String.concat "|" (obs @ (if cut then ["?"] else [])))
+
 let () =
   let ic = if Array.length Sys.argv > 1 then open_in Sys.argv.(1) else stdin in
   iter_lines ic (fun line ->
@@ -246,5 +278,6 @@ let () =
        | "s" -> run_str id toks
        | "d" -> run_deq id (int_list params) toks
        | "st" -> run_set id toks
+       | "l" -> run_list id toks
        | _ -> ())
     | _ -> ())
